@@ -66,6 +66,11 @@ func (pf *ZKProof) Verify(Session []byte, X *crypto.ECPoint) bool {
 		cHash := common.SHA512_256i_TAGGED(Session, X.X(), X.Y(), g.X(), g.Y(), pf.Alpha.X(), pf.Alpha.Y())
 		c = common.RejectionSample(q, cHash)
 	}
+	// a response or challenge that is 0 modulo the group order would need the identity point, which
+	// ScalarBaseMult / ScalarMult cannot represent (they panic)
+	if new(big.Int).Mod(pf.T, q).Sign() == 0 || c.Sign() == 0 {
+		return false
+	}
 	tG := crypto.ScalarBaseMult(ec, pf.T)
 	Xc := X.ScalarMult(c)
 	aXc, err := pf.Alpha.Add(Xc)
@@ -120,9 +125,16 @@ func (pf *ZKVProof) Verify(Session []byte, V, R *crypto.ECPoint) bool {
 		cHash := common.SHA512_256i_TAGGED(Session, V.X(), V.Y(), R.X(), R.Y(), g.X(), g.Y(), pf.Alpha.X(), pf.Alpha.Y())
 		c = common.RejectionSample(q, cHash)
 	}
+	// see ZKProof.Verify: scalars that are 0 modulo the group order cannot be multiplied
+	if new(big.Int).Mod(pf.T, q).Sign() == 0 || new(big.Int).Mod(pf.U, q).Sign() == 0 || c.Sign() == 0 {
+		return false
+	}
 	tR := R.ScalarMult(pf.T)
 	uG := crypto.ScalarBaseMult(ec, pf.U)
-	tRuG, _ := tR.Add(uG) // already on the curve.
+	tRuG, err := tR.Add(uG)
+	if err != nil {
+		return false // t*R + u*G is the identity
+	}
 
 	Vc := V.ScalarMult(c)
 	aVc, err := pf.Alpha.Add(Vc)
